@@ -35,13 +35,14 @@ def run(chk, ctx) -> None:
     # cards that were not named stay in the hand, face down
     from .c06 import _show_fill
     from .helpers import Refile as _Rf
-    _show_fill(_Rf(chk, {'C06.show_fill': 'C12.show_flags'}), ctx)
+    from .helpers import foreign
+    foreign(chk, _show_fill, _Rf(chk, {'C06.show_fill': 'C12.show_flags'}), ctx)
     # "all hole cards to be shown": a card counts as shown only when both its rank and its suit are known
     from .helpers import Refile, known_card_helpers
     known_card_helpers(chk, ctx, 'C12.tournament')
     # "cannot win": hands are compared (best shown <= own) by the one order all hand types share
     from .c04 import _operators
-    _operators(Refile(chk, {'C04.operators': 'C12.coverage'}, only=lambda r, c: c.startswith('Hand')), ctx)
+    foreign(chk, _operators, Refile(chk, {'C04.operators': 'C12.coverage'}, only=lambda r, c: c.startswith('Hand')), ctx)
     # the player who showed or mucked - the one named, when one is named - is the one who leaves the queue of players still to show
     from .c08 import _applies_to, discovered
     _applies_to(Refile(chk, {'C08.applies_to': 'C12.order'}, only=lambda r, c: c == 'State.show_or_muck_hole_cards'), ctx, discovered(ctx))
